@@ -81,8 +81,7 @@ class CFG:
         self.raise_exit = self._new("raise_exit")
         frame = _Frame(lambda: self.raise_exit, lambda: self.exit)
         last = self._body(func.body if body is None else body, [self.entry], frame)
-        for l in last:
-            self._edge(l, self.exit, "fall")
+        self._connect(last, self.exit, "fall")
 
     # -- construction helpers --------------------------------------------------------------
     def _new(self, kind, stmt=None, label=""):
